@@ -2,6 +2,7 @@ import QV.Model.Grover
 import QV.Proofs.Grover
 import QV.Proofs.GroverAmp
 import QV.Props.C09
+import QV.Proofs.EndToEnd
 /-!
 # C15 – Grover search amplifies exactly the solutions of the predicate
 
@@ -406,5 +407,183 @@ theorem distinct_wires_needed :
 /-- a well-typed value for `decode_solution` -/
 example : C09.WT (.tuple [.qint 2, .qint 2]) (.tuple [.int 1, .int 2]) := by
   simp [C09.WT, C09.WTs]
+
+/-! ## End to end: the oracle is what the compiler model produces (`QV/Proofs/EndToEnd.lean`)
+
+`C15_full` assumes `CleanXorOracle`.  For the decidable class `inXorFragment` of `C06_fragment_partial`
+(one definition `r = e`, `e` a tree over the argument bits built from `Not` / `And` / `Or` / `Xor` of any
+arity with no compound sub-expression twice, distinct non-reserved argument names, the output qubit not an
+argument qubit) the hypothesis is a theorem about the model of the compiler (`EndToEnd.compile_oracles`:
+`C06_fragment_partial` for the xor-oracle, `C02.compile_gates_wellformed` for gate classes / wire bounds /
+distinct wires, `C02.compile_bookkeeping` for `_ret < num_qubits`).  So on that class nothing about the
+oracle is assumed any more. -/
+
+section EndToEnd
+open QV.Compiler (compile inXorFragment dictGet? CState)
+open QV.EndToEnd (predOf)
+
+/-- **C15 end to end on the fragment.**  For every predicate definition `r = e` of the class `inXorFragment`
+over `2 ≤ n ≤ 6` argument bits whose denoted predicate `predOf inputs defs r` (`x ↦ ⟦e⟧` with argument `i`
+= bit `i` of `x`) has `1 ≤ M ≤ 2^n/4` solutions, and **every** successful run of the compiler model
+`compile inputs defs (some [r]) true` (every admissible sequence of ancilla choices; `s` = the final compiler
+state): the return name is mapped to a qubit `ret`, the default iteration count `k` exists, and the Grover
+gate list built from the **compiled** gate list `s.qc.gates`, its number of qubits and `ret` reads each
+solution with probability `ps/d`, each non-solution with `pn/d`, `(ps, pn, d) = predict n M k`, `ps > pn`,
+`M·ps/d > 1/2` – the conclusion of `C15_full`, with no hypothesis about the oracle left. -/
+theorem C15_end_to_end_fragment (q : Quirks) (inputs : List String) (defs : List (String × BExp))
+    (r : String) (choices : List Nat) (s : CState) (M : Nat)
+    (hf : inXorFragment inputs defs [r] = true)
+    (h : (compile inputs defs (some [r]) true).run { choices := choices } = .ok ((), s))
+    (h2 : 2 ≤ inputs.length) (h6 : inputs.length ≤ 6)
+    (hcount : ((allStates inputs.length).filter (predOf inputs defs r)).length = M)
+    (hM : 1 ≤ M) (hq : 4 * M ≤ 2 ^ inputs.length) :
+    ∃ ret k, dictGet? s.qc.qmap r = some ret ∧ kDefault inputs.length M = some k ∧
+      let gs := groverGates q inputs.length s.qc.gates.toList s.qc.numQubits ret k
+      let pr := predict inputs.length M k
+      (∀ x : BState, x.length = inputs.length →
+        probNum gs (s.qc.numQubits + 1) inputs.length x * pr.2.2
+          = (if predOf inputs defs r x then pr.1 else pr.2.1) * 2 ^ hCount gs) ∧
+      pr.2.1 < pr.1 ∧ pr.2.2 < 2 * (M * pr.1) := by
+  obtain ⟨ret, hret, _, _, hO, _⟩ :=
+    EndToEnd.compile_oracles inputs defs [r] choices s hf h r List.mem_cons_self
+  obtain ⟨k, hk, hdist⟩ :=
+    C15_full.1 q inputs.length M s.qc.numQubits ret s.qc.gates.toList (predOf inputs defs r)
+      h2 h6 hcount hM hq hO
+  exact ⟨ret, k, hret, hk, hdist⟩
+
+/-- **The measured distribution of the compiled circuit is the prediction, for every width and every
+iteration count** (the end-to-end form of `grover_distribution`: any number `n` of argument bits, any number
+`M` of solutions, any `k ≥ 1` – also the explicit `n_iterations` of the constructor). -/
+theorem C15_end_to_end_distribution (q : Quirks) (inputs : List String) (defs : List (String × BExp))
+    (r : String) (choices : List Nat) (s : CState) (M : Nat)
+    (hf : inXorFragment inputs defs [r] = true)
+    (h : (compile inputs defs (some [r]) true).run { choices := choices } = .ok ((), s))
+    (hcount : ((allStates inputs.length).filter (predOf inputs defs r)).length = M)
+    (k : Nat) (hk : 1 ≤ k) :
+    ∃ ret, dictGet? s.qc.qmap r = some ret ∧
+      ∀ x : BState, x.length = inputs.length →
+        probNum (groverGates q inputs.length s.qc.gates.toList s.qc.numQubits ret k) (s.qc.numQubits + 1)
+            inputs.length x * (predict inputs.length M k).2.2
+          = (if predOf inputs defs r x then (predict inputs.length M k).1 else (predict inputs.length M k).2.1)
+            * 2 ^ hCount (groverGates q inputs.length s.qc.gates.toList s.qc.numQubits ret k) := by
+  obtain ⟨ret, hret, _, _, hO, _⟩ :=
+    EndToEnd.compile_oracles inputs defs [r] choices s hf h r List.mem_cons_self
+  exact ⟨ret, hret, fun x hx =>
+    grover_distribution q inputs.length M s.qc.numQubits ret s.qc.gates.toList (predOf inputs defs r)
+      hcount hO k hk x hx⟩
+
+/-- **Independence of how the predicate is written or compiled, end to end.**  Two definitions of the class
+(different expressions, different argument or return names) that denote the same predicate on `n` bits,
+compiled by any two successful runs of the compiler model (different ancilla choices, different numbers of
+scratch qubits, different position of the return qubit): for every iteration count `k ≥ 1` the two Grover gate
+lists give every outcome `x` the same probability (same numerator, same number of `H` gates). -/
+theorem C15_end_to_end_independent (q q' : Quirks) (inputs inputs' : List String)
+    (defs defs' : List (String × BExp)) (r r' : String) (choices choices' : List Nat) (s s' : CState)
+    (hf : inXorFragment inputs defs [r] = true) (hf' : inXorFragment inputs' defs' [r'] = true)
+    (h : (compile inputs defs (some [r]) true).run { choices := choices } = .ok ((), s))
+    (h' : (compile inputs' defs' (some [r']) true).run { choices := choices' } = .ok ((), s'))
+    (hlen : inputs'.length = inputs.length)
+    (hsame : ∀ x : List Bool, x.length = inputs.length → predOf inputs defs r x = predOf inputs' defs' r' x)
+    (k : Nat) (hk : 1 ≤ k) (x : BState) (hx : x.length = inputs.length) :
+    ∃ ret ret', dictGet? s.qc.qmap r = some ret ∧ dictGet? s'.qc.qmap r' = some ret' ∧
+      probNum (groverGates q inputs.length s.qc.gates.toList s.qc.numQubits ret k)
+          (s.qc.numQubits + 1) inputs.length x
+        = probNum (groverGates q' inputs.length s'.qc.gates.toList s'.qc.numQubits ret' k)
+          (s'.qc.numQubits + 1) inputs.length x ∧
+      hCount (groverGates q inputs.length s.qc.gates.toList s.qc.numQubits ret k)
+        = hCount (groverGates q' inputs.length s'.qc.gates.toList s'.qc.numQubits ret' k) := by
+  obtain ⟨ret, hret, _, _, hO, _⟩ :=
+    EndToEnd.compile_oracles inputs defs [r] choices s hf h r List.mem_cons_self
+  obtain ⟨ret', hret', _, _, hO', _⟩ :=
+    EndToEnd.compile_oracles inputs' defs' [r'] choices' s' hf' h' r' List.mem_cons_self
+  rw [hlen] at hO'
+  have hO'' := EndToEnd.cleanXorOracle_congr hO' (fun y hy => (hsame y hy).symm)
+  exact ⟨ret, ret', hret, hret',
+    compilation_independent q q' inputs.length _ ret _ ret' _ _ _ hO hO'' k hk x hx⟩
+
+/-! ### a concrete member of the class, compiled by the model -/
+
+/-- `a.0 ∧ a.1 ∧ ¬a.2` on three bits (the predicate `a == 3` of a `Qint[3]` argument as the front end
+hands it to the compiler) -/
+def exInputs : List String := ["a.0", "a.1", "a.2"]
+def exDefs : List (String × BExp) := [("_ret", .and [.sym "a.0", .sym "a.1", .not (.sym "a.2")])]
+/-- the same predicate written differently: `(a.0 ∧ a.1) ∧ ¬(a.2 ∨ ¬a.1)` over arguments called `b.i` -/
+def exInputs' : List String := ["b.0", "b.1", "b.2"]
+def exDefs' : List (String × BExp) :=
+  [("_ret", .and [.and [.sym "b.0", .sym "b.1"], .not (.or [.sym "b.2", .not (.sym "b.1")])])]
+
+/-- the model compiles `exDefs` (ancilla choices 3, 4: qubit 3 = `¬a.2`, qubit 4 = `_ret`; five gates
+`CX 2→3, X 3, MCX [0,1,3]→4, X 3, CX 2→3`).  Kernel evaluation of `compile`, with `sortNat` (a
+`List.mergeSort`) rewritten to insertion sort first (`EndToEnd.sortNat_eq`). -/
+theorem exDefs_compiles :
+    ∃ s, (compile exInputs exDefs (some ["_ret"]) true).run { choices := [3, 4] } = .ok ((), s) := by
+  have hb : ((compile exInputs exDefs (some ["_ret"]) true).run { choices := [3, 4] }).toBool = true := by
+    simp only [compile, exInputs, exDefs, Compiler.compileDefs, Compiler.compileExpr, Compiler.compileArgs,
+      EndToEnd.sortNat_eq]
+    decide +kernel
+  cases hrun : (compile exInputs exDefs (some ["_ret"]) true).run { choices := [3, 4] } with
+  | ok p => exact ⟨p.2, rfl⟩
+  | error e => rw [hrun] at hb; cases hb
+
+theorem exDefs'_compiles :
+    ∃ s, (compile exInputs' exDefs' (some ["_ret"]) true).run { choices := [3, 4, 5, 6] } = .ok ((), s) := by
+  have hb : ((compile exInputs' exDefs' (some ["_ret"]) true).run { choices := [3, 4, 5, 6] }).toBool = true := by
+    simp only [compile, exInputs', exDefs', Compiler.compileDefs, Compiler.compileExpr, Compiler.compileArgs,
+      EndToEnd.sortNat_eq]
+    decide +kernel
+  cases hrun : (compile exInputs' exDefs' (some ["_ret"]) true).run { choices := [3, 4, 5, 6] } with
+  | ok p => exact ⟨p.2, rfl⟩
+  | error e => rw [hrun] at hb; cases hb
+
+theorem ex_same_predicate :
+    ∀ x : List Bool, x.length = exInputs.length → predOf exInputs exDefs "_ret" x = predOf exInputs' exDefs' "_ret" x := by
+  intro x hx
+  match x, hx with
+  | [a, b, c], _ => cases a <;> cases b <;> cases c <;> decide +kernel
+
+/-- non-vacuity of `C15_end_to_end_fragment`: every hypothesis holds for `exDefs` (class membership, a
+successful run of the model, one solution among eight), so the Grover circuit built from the model's gate
+list finds the solution `110` (bit 0 first) with probability `1655872/2097152 ≈ 0.79` after the default
+three iterations -/
+example : ∃ s ret k,
+    (compile exInputs exDefs (some ["_ret"]) true).run { choices := [3, 4] } = .ok ((), s) ∧
+    dictGet? s.qc.qmap "_ret" = some ret ∧ kDefault 3 1 = some k ∧
+    (∀ x : BState, x.length = 3 →
+      probNum (groverGates Quirks.none 3 s.qc.gates.toList s.qc.numQubits ret k) (s.qc.numQubits + 1) 3 x
+          * (predict 3 1 k).2.2
+        = (if predOf exInputs exDefs "_ret" x then (predict 3 1 k).1 else (predict 3 1 k).2.1)
+          * 2 ^ hCount (groverGates Quirks.none 3 s.qc.gates.toList s.qc.numQubits ret k)) ∧
+    (predict 3 1 k).2.2 < 2 * (1 * (predict 3 1 k).1) := by
+  obtain ⟨s, hs⟩ := exDefs_compiles
+  obtain ⟨ret, k, hret, hk, hd, _, hhalf⟩ :=
+    C15_end_to_end_fragment Quirks.none exInputs exDefs "_ret" [3, 4] s 1 (by decide +kernel) hs
+      (by decide) (by decide) (by decide +kernel) (by decide) (by decide)
+  exact ⟨s, ret, k, hs, hret, hk, hd, hhalf⟩
+
+/-- non-vacuity of `C15_end_to_end_independent`: the two ways of writing the predicate, compiled to
+different circuits (5 vs. 7 qubits), give the same distribution -/
+example : ∃ (s s' : CState) (ret ret' : Nat),
+    (compile exInputs exDefs (some ["_ret"]) true).run { choices := [3, 4] } = .ok ((), s) ∧
+    (compile exInputs' exDefs' (some ["_ret"]) true).run { choices := [3, 4, 5, 6] } = .ok ((), s') ∧
+    dictGet? s.qc.qmap "_ret" = some ret ∧ dictGet? s'.qc.qmap "_ret" = some ret' ∧
+    ∀ x : BState, x.length = 3 →
+      probNum (groverGates Quirks.none 3 s.qc.gates.toList s.qc.numQubits ret 3) (s.qc.numQubits + 1) 3 x
+        = probNum (groverGates Quirks.none 3 s'.qc.gates.toList s'.qc.numQubits ret' 3) (s'.qc.numQubits + 1) 3 x := by
+  obtain ⟨s, hs⟩ := exDefs_compiles
+  obtain ⟨s', hs'⟩ := exDefs'_compiles
+  obtain ⟨ret, ret', hret, hret', _⟩ :=
+    C15_end_to_end_independent Quirks.none Quirks.none exInputs exInputs' exDefs exDefs' "_ret" "_ret" _ _ s s'
+      (by decide +kernel) (by decide +kernel) hs hs' rfl ex_same_predicate 3 (by decide)
+      [false, false, false] rfl
+  refine ⟨s, s', ret, ret', hs, hs', hret, hret', ?_⟩
+  intro x hx
+  obtain ⟨ret2, ret2', h1, h2, hp, _⟩ :=
+    C15_end_to_end_independent Quirks.none Quirks.none exInputs exInputs' exDefs exDefs' "_ret" "_ret" _ _ s s'
+      (by decide +kernel) (by decide +kernel) hs hs' rfl ex_same_predicate 3 (by decide) x hx
+  rw [hret] at h1; rw [hret'] at h2
+  cases h1; cases h2
+  exact hp
+
+end EndToEnd
 
 end QV.C15
